@@ -10,6 +10,7 @@ CONSTANTS
   MaxDup = 0
   SubmitUntil = 1
   OneDeepMemory = FALSE
+  MaxPings = 0
 INVARIANTS NstartBoundI OneOutcomeI NeverLateI OneNackI CountBoundI ConcludeOnceI HeldFifoI
 CONSTRAINT NotBrokenI
 CHECK_DEADLOCK FALSE
